@@ -1114,7 +1114,9 @@ class PyCdlib:
                 # Ignore zero-length files (including symlinks) for linkage.
                 # We don't do the lastbyte calculation on zero-length files for
                 # the same reason.
-                if not is_dir:
+                # The placeholder of a relocated directory (Rock Ridge CL) is
+                # not a file; it has no data of its own and gets no Inode.
+                if not is_dir and not rr_cl:
                     len_to_use = data_length
                     extent_to_use = new_extent_loc
                     # An important side-effect of this is that zero-length files
